@@ -145,7 +145,8 @@ def _prefix(drv, gen, rng, kind, flavour, hexfile):
 
 
 def run_history(rng, version, flavour, steps, *, profile=None, calls=True, persist=None, raising_cb=False,
-                pump_bias=0.7, hexfile=None, clock=True, mqtt=False, harsh=False, prefix=None):
+                pump_bias=0.7, hexfile=None, clock=True, mqtt=False, harsh=False, prefix=None,
+                tick_p=0.06, restart_p=0.03, snap_dir=None, snap_p=0.0):
     """One random history on a fresh gateway; returns the trace dict."""
     interner = Interner()
     drv = Driver(version, flavour, interner, persistence_file=persist, raising_cb=raising_cb, mqtt=mqtt)
@@ -163,6 +164,9 @@ def run_history(rng, version, flavour, steps, *, profile=None, calls=True, persi
             drv.pump()
             continue
         x = rng.random()
+        if snap_dir and rng.random() < snap_p:
+            drv.snapshot(snap_dir)
+            continue
         if calls and x < 0.12:
             t = gen.t()
             if harsh and rng.random() < 0.4:
@@ -183,9 +187,9 @@ def run_history(rng, version, flavour, steps, *, profile=None, calls=True, persi
                 gen.ota_nodes = (nids if isinstance(nids, list) else [nids])[:2]
         elif calls and x < 0.18:
             drv.set_metric(rng.random() < 0.5)
-        elif persist and x < 0.24:
+        elif persist and x < 0.18 + tick_p:
             drv.tick()
-        elif persist and x < 0.27:
+        elif persist and x < 0.18 + tick_p + restart_p:
             drv.stop_restart()
             drv.start_persistence()
         elif gen.ota_nodes and x < 0.45:
@@ -204,5 +208,7 @@ def run_history(rng, version, flavour, steps, *, profile=None, calls=True, persi
         while drv.gw.tasks.queue and guard < 200:
             drv.pump()
             guard += 1
+    if snap_dir:
+        drv.snapshot(snap_dir)
     drv.close()
     return drv.trace({"seed_note": "random"})
